@@ -243,5 +243,5 @@ UNIT = dict(
     ],
     trusted_base=['ASSUMED: the tokeniser hands out the ghost tokens (its safety is K-tok\'s subject); Presence::find / end, trait bit operations, F8MetaCntx::find_be, the field instantiator, '
                   'add_field_decoder, std::string::append as logging models (model bodies in specs/k_dec.py)'],
-    assumptions=['bounded: texts of at most 3 tokens, parts of at most 3 field traits; no repeating groups and no Length/data pairs in the part (decode_group and the fixed-width branch are models that are not reached)'],
+    assumptions=['bounded: texts of at most 3 tokens (5 in the thorough tier), parts of at most 3 field traits; no repeating groups in the part (decode_group is a model here, K-dgrp covers it); Length/data pairs only in the part_length harnesses, where the fixed-width tokeniser is a model with the capacity assertion'],
 )
